@@ -1,4 +1,5 @@
 import WacProofs.Lemmas.PrinterTokChars
+import WacProofs.Lemmas.PrinterLexStream
 import WacProofs.Lemmas.PrinterErase
 /-
   C13: every character of every token text and of every doc comment the lexer model returns is a
